@@ -1,17 +1,48 @@
 #!/bin/bash
-# usage: run_suite.sh <worktree>   -- runs the package's whole test suite in <worktree> and compares the
-# set of failing tests with the unchanged tree (a few tests fail there because `pyfmtools` is missing).
+# usage: run_suite.sh <tree>   -- runs the package's whole test suite in <tree> and compares the set of
+# failing tests with the unchanged tree (tools/expected_failures.txt: tests that need the missing `pyfmtools`).
+# Newly failing tests are re-run up to twice on their own: the PPO-training tests of test_run_learn.py are
+# seeded from the wall clock and fail now and then on the unchanged tree too.
 export OMP_NUM_THREADS=1 MKL_NUM_THREADS=1 OPENBLAS_NUM_THREADS=1
 WT="$1"; OUT=$(mktemp /tmp/suite-XXXX.xml)
+HERE="$(cd "$(dirname "$0")" && pwd)"
 cd "$WT" && timeout 3000 /venv/bin/python -m pytest -q -p no:cacheprovider --timeout=900 --continue-on-collection-errors --junitxml="$OUT" > "$OUT.log" 2>&1
-python3 - "$OUT" <<'PY'
-import sys, xml.etree.ElementTree as ET
-exp=set(open('/verif/tools/expected_failures.txt').read().split('\n'))-{''}
-failed=set()
-for tc in ET.parse(sys.argv[1]).iter('testcase'):
-    if any(ch.tag in ('failure','error') for ch in tc):
-        failed.add(f"{tc.get('classname')}::{tc.get('name')}")
-new=failed-exp
-print("SUITE OK: no test fails that passes on the unchanged tree" if not new else "SUITE BROKEN, newly failing:\n  "+"\n  ".join(sorted(new)))
+python3 - "$OUT" "$WT" "$HERE/expected_failures.txt" <<'PY'
+import subprocess, sys, xml.etree.ElementTree as ET
+exp = set(open(sys.argv[3]).read().split('\n')) - {''}
+def failed_in(xml):
+    out = set()
+    for tc in ET.parse(xml).iter('testcase'):
+        if any(ch.tag in ('failure', 'error') for ch in tc):
+            out.add(f"{tc.get('classname')}::{tc.get('name')}")
+    return out
+try:
+    new = failed_in(sys.argv[1]) - exp
+except Exception as e:
+    print("SUITE BROKEN: no junit report (suite killed or timed out):", e); sys.exit(0)
+flaky = []
+for attempt in range(2):
+    if not new:
+        break
+    still = set()
+    for t in sorted(new):
+        cls, name = t.split('::', 1)
+        parts = cls.split('.')
+        if parts[-1][:1].isupper():
+            node = '/'.join(parts[:-1]) + '.py::' + parts[-1] + '::' + name
+        else:
+            node = '/'.join(parts) + '.py::' + name
+        r = subprocess.run(['/venv/bin/python', '-m', 'pytest', '-q', '-p', 'no:cacheprovider', '--timeout=900', node],
+                           cwd=sys.argv[2], capture_output=True, text=True)
+        if r.returncode != 0:
+            still.add(t)
+        else:
+            flaky.append(t)
+    new = still
+if new:
+    print("SUITE BROKEN, newly failing (also on re-run):\n  " + "\n  ".join(sorted(new)))
+else:
+    print("SUITE OK: no test fails that passes on the unchanged tree" +
+          (f" (passed on re-run, flaky: {sorted(set(flaky))})" if flaky else ""))
 PY
 rm -f "$OUT" "$OUT.log"
